@@ -394,7 +394,10 @@ def parse_radec(src_raj: float, src_dej: float) -> SkyCoord:
 
     # the sign belongs to the whole declination, not to the integer degrees (-00:30:15)
     dec_sign = "-" if sign < 0 else "+"
-    radec_str = f"{int(ho)} {int(mi)} {se} {dec_sign}{int(de)} {int(ami)} {ase}"
+    # fixed-point seconds: str() switches to exponent form below 1e-4 ("3e-05"), which SkyCoord cannot parse
+    radec_str = (
+        f"{int(ho)} {int(mi)} {se:.12f} {dec_sign}{int(de)} {int(ami)} {ase:.12f}"
+    )
     return SkyCoord(radec_str, unit=(units.hourangle, units.deg))
 
 
